@@ -40,6 +40,20 @@ Local Open Scope nat_scope.
    before fix f1643ee). *)
 Definition result_shuffle_fixed : bool := true.
 
+(* compile.go, Result reuse: the re-shuffle tasks are named
+   "inv<this invocation>_<op of the Result's task>_shuffle" (before fix 3babbc3:
+   "<op of the Result's task>_shuffle", which carries only the EARLIER
+   invocation's index, so that two invocations re-shuffling one Result minted the
+   same operation name; task stores are keyed by operation name and shard). *)
+Definition reshuffle_named_by_inv : bool := true.
+
+(* the configuration of the compiler proper *)
+Record config := mkConfig {
+  cfg_partitioned : bool;     (* result_shuffle_fixed *)
+  cfg_named_by_inv : bool     (* reshuffle_named_by_inv *)
+}.
+Definition code_config : config := mkConfig result_shuffle_fixed reshuffle_named_by_inv.
+
 (* session.go + bigmachine.go addInvocation: compile() copies the invocation (and
    its Env.Writable flag) into every Task before (Session).run freezes its own
    copy, and the executor ships task.Invocation; addInvocation now freezes the
@@ -232,7 +246,7 @@ Section Compile.
   Variable g : dag.
   Variable inv : N.                  (* c.inv.Index *)
   Variable mc : bool.                (* c.machineCombiners *)
-  Variable fixed : bool.             (* result_shuffle_fixed *)
+  Variable fixed : config.           (* code_config, or a former configuration *)
 
   (* compile.go:298-334 *)
   Fixpoint compile_deps (rec : nat -> part -> cstate -> cres)
@@ -304,12 +318,19 @@ Section Compile.
     map (fun sr =>
            let rt := get_task s (snd sr) in
            mkTask inv opn (fst sr) (List.length rts)
-                  (if fixed then part_num p else 0)
-                  (if fixed then part_kind p else 0)
-                  (if fixed then pcomb p else false)
-                  (if fixed then pckey p else "")
+                  (if cfg_partitioned fixed then part_num p else 0)
+                  (if cfg_partitioned fixed then part_kind p else 0)
+                  (if cfg_partitioned fixed then pcomb p else false)
+                  (if cfg_partitioned fixed then pckey p else "")
                   [mkTDep (snd sr) 0 false ""] group (tslices rt))
         (combine (seq 0 (List.length rts)) rts).
+
+  (* the name handed to the namer for the re-shuffle tasks over a Result whose
+     first task performs operation [op] *)
+  Definition shuffle_base_old (op : string) : string := op ++ "_shuffle".
+  Definition shuffle_base_inv (op : string) : string := "inv" ++ decN inv ++ "_" ++ op ++ "_shuffle".
+  Definition shuffle_base (op : string) : string :=
+    if cfg_named_by_inv fixed then shuffle_base_inv op else shuffle_base_old op.
 
   Definition compile_result (rts : list nat) (p : part) (st : cstate) : cres :=
     if existsb (fun id => thascomb (get_task (sstore st) id)) rts then CFail EReuseCombiner
@@ -318,7 +339,7 @@ Section Compile.
       match rts with
       | [] => CFail EPanic                                   (* result.tasks[0] *)
       | r0 :: _ =>
-          let '(opn, nm) := namer_new (snamer st) (top (get_task (sstore st) r0) ++ "_shuffle") in
+          let '(opn, nm) := namer_new (snamer st) (shuffle_base (top (get_task (sstore st) r0))) in
           let ids := seq (List.length (sstore st)) (List.length rts) in
           let ts := reshuffle_tasks (sstore st) opn p rts ids in
           COk (mkSt (sstore st ++ ts) nm (smemo st) (senv st)) ids
@@ -351,6 +372,6 @@ End Compile.
 
 (* compile(inv, slice, machineCombiners), compile.go:111-123: the root is the last node *)
 Definition init_state (init : list task) (env : cenv) : cstate := mkSt init [] [] env.
-Definition compile_gen (fixed : bool) (g : dag) (inv : N) (mc : bool) (init : list task) (env : cenv) : cres :=
+Definition compile_gen (fixed : config) (g : dag) (inv : N) (mc : bool) (init : list task) (env : cenv) : cres :=
   compile g inv mc fixed (S (List.length g)) (pred (List.length g)) part0 (init_state init env).
-Definition compile_top := compile_gen result_shuffle_fixed.
+Definition compile_top := compile_gen code_config.
